@@ -287,6 +287,58 @@ def one_level_twins(res, rng, limit, n):
                 res.fail('the unflatten function of tree_flatten_one_level builds a different node', case)
 
 
+def one_level_registered_tuples(res):
+    """namedtuple classes, namedtuple subclasses and struct-sequence types that are THEMSELVES registered as
+    custom nodes (globally, in a namespace, in both): the Python registry lookup behind
+    tree_flatten_one_level must find the explicit registration exactly where the engine does"""
+    import warnings
+    P = collections.namedtuple('P18', 'x y z')
+    PS = type('PS18', (collections.namedtuple('PB18', 'a b'),), {'__slots__': ()})
+    classes = [(P, lambda: P(world.Opaque(1), world.Opaque(2), world.Opaque(3))),
+               (PS, lambda: PS(world.Opaque(4), world.Opaque(5))),
+               (time.struct_time, lambda: time.struct_time([world.Opaque(10 + i) for i in range(9)]))]
+    for cls, mk in classes:
+        for where in (('g',), ('n',), ('g', 'n')):
+            done = []
+            with warnings.catch_warnings():
+                warnings.simplefilter('ignore')
+                try:
+                    for wns in where:
+                        tag = f'{cls.__name__}/{wns}'
+                        optree.register_pytree_node(
+                            cls, lambda x, tag=tag: (tuple(reversed(tuple(x))), tag, tuple(f'e{i}' for i in range(len(tuple(x))))),
+                            lambda md, ch, cls=cls: cls(*reversed(tuple(ch))) if cls is not time.struct_time else cls(tuple(reversed(tuple(ch)))),
+                            namespace=world.GLOBAL if wns == 'g' else 'r18')
+                        done.append(wns)
+                    x = mk()
+                    for q in ('', 'r18', 'other18'):
+                        for nil in (False, True):
+                            res.evaluations += 1
+                            case = f'class {cls.__name__} registered in {where} queried in namespace {q!r} none_is_leaf={nil}'
+                            ls, sp = optree.tree_flatten(x, namespace=q, none_is_leaf=nil)
+                            one = attempt(lambda: optree.tree_flatten_one_level(x, namespace=q, none_is_leaf=nil))
+                            if one[0] != 0:
+                                res.fail('tree_flatten_one_level raised on an internal node', case, one)
+                                continue
+                            out = one[1]
+                            if len(out.children) != len(ls) or any(a is not b for a, b in zip(out.children, ls)):
+                                res.fail('tree_flatten_one_level children differ from the engine', case,
+                                         f'{[getattr(c, "i", c) for c in out.children]} vs {[getattr(c, "i", c) for c in ls]}')
+                            if list(out.entries) != list(sp.entries()):
+                                res.fail('tree_flatten_one_level entries differ from the engine', case, f'{out.entries} vs {sp.entries()}')
+                            if out.type is not sp.type or int(out.kind) != int(sp.kind):
+                                res.fail('tree_flatten_one_level type / kind differ from the engine', case, f'{out.kind} vs {sp.kind}')
+                            md_engine = sp.__getstate__()[0][-1][2]
+                            if int(sp.kind) == 0 and out.metadata != md_engine:
+                                res.fail('tree_flatten_one_level metadata differs from the engine', case, f'{out.metadata} vs {md_engine}')
+                            e = optree.register_pytree_node.get(cls, namespace=q if q else world.GLOBAL)
+                            if (e is None) or list(e.flatten_func(x)[0]) != list(out.children):
+                                res.fail('register_pytree_node.get(cls) does not describe what flattening does', case)
+                finally:
+                    for wns in done:
+                        optree.unregister_pytree_node(cls, namespace=world.GLOBAL if wns == 'g' else 'r18')
+
+
 def cache_histories(res, rng, rounds):
     """thousands of transient classes, freed between queries, addresses reused by the other kind"""
     reuse = 0
@@ -331,6 +383,7 @@ def run(res, tier, seed):
     twin_classifiers(res, classes)
     sort_twins(res, rng, 600 if tier == 'quick' else 20000)
     one_level_twins(res, rng, limit, 600 if tier == 'quick' else 10000)
+    one_level_registered_tuples(res)
     cache_histories(res, rng, 5000 if tier == 'quick' else 60000)
     # again after the cache has seen thousands of classes
     twin_classifiers(res, classes[:200])
